@@ -7,6 +7,8 @@ From TS Require Proofs.C10Lex Proofs.C10_TS Proofs.C10_TSFile Proofs.C10_KT Proo
                 Proofs.C10_SW Proofs.C10_SWFile Proofs.C10_PY Proofs.C10_PYFile Proofs.C10_KW Proofs.C10.
 From TS Require Import Spec.C10TsGrammar.
 From TS Require Proofs.C10_TSGrammarTok Proofs.C10_TSGrammarParse Proofs.C10_TSGrammar Proofs.C10_TSGrammarFile.
+From TS Require Import Model.MultiFile Spec.C10MultiSpec.
+From TS Require Model.Writer Proofs.C10Multi Proofs.C10MultiWitness.
 From TS Require Props.C10.
 
 Goal forall (cfg : c10_lexcfg) (t : str), c10_balanced cfg t = true ->
@@ -171,3 +173,86 @@ Goal Proofs.C10_TSFile.c10_ts_cfg_ok Proofs.C10_TSGrammarFile.g_cfg = true /\ Pr
   c10_ts_recognise (Proofs.C10_TSGrammarFile.g_subst_first 61 58 Proofs.C10_TSGrammarFile.g_text) = None.
 Proof. exact Props.C10.C10_grammar_typescript_witness. Qed.
 Print Assumptions Props.C10.C10_grammar_typescript_witness.
+Goal forall (uc : unicode) (cfg : ts_config) (st : ts_state) (im : scoped) (pd : parsed) (text : str) (st' : ts_state),
+    unicode_ok uc -> Proofs.C10_TSFile.c10_ts_cfg_ok cfg = true -> dom_C10 CTS pd = true -> c10_imports_ok im = true ->
+    Proofs.C10_TSFile.c10_ts_state_ok st = true ->
+    ts_generate_multi uc cfg st im pd = Ok (text, st') ->
+    good_C10_lex CTS text = true /\ Proofs.C10_TSFile.c10_ts_state_ok st' = true.
+Proof. exact Props.C10.C10_lex_multi_typescript. Qed.
+Print Assumptions Props.C10.C10_lex_multi_typescript.
+Goal forall (uc : unicode) (cfg : kt_config) (c : str) (im : scoped) (pd : parsed) (text : str),
+    Proofs.C10_KT.c10_kt_cfg_ok cfg = true -> dom_C10 CKT pd = true -> c10_crate_ok c = true -> c10_imports_ok im = true ->
+    kt_generate_multi uc cfg c im pd = Ok text -> good_C10_lex CKT text = true.
+Proof. exact Props.C10.C10_lex_multi_kotlin. Qed.
+Print Assumptions Props.C10.C10_lex_multi_kotlin.
+Goal forall (uc : unicode) (cfg : sw_config) (st : sw_state) (pd : parsed) (text : str) (st' : sw_state),
+    Proofs.C10_SWFile.c10_sw_cfg_ok cfg = true -> dom_C10 CSW pd = true ->
+    sw_generate_multi uc cfg st pd = Ok (text, st') -> good_C10_lex CSW text = true.
+Proof. exact Props.C10.C10_lex_multi_swift. Qed.
+Print Assumptions Props.C10.C10_lex_multi_swift.
+Goal forall (cfg : sw_config), Proofs.C10_SWFile.c10_sw_cfg_ok cfg = true -> good_C10_lex CSW (sw_codable_contents cfg) = true.
+Proof. exact Props.C10.C10_lex_multi_swift_codable. Qed.
+Print Assumptions Props.C10.C10_lex_multi_swift_codable.
+Goal forall (uc : unicode) (cfg : go_config) (st : go_state) (pd : parsed) (text : str) (st' : go_state),
+    unicode_ok uc -> Proofs.C10_GOFile.c10_go_cfg_ok cfg = true -> dom_C10 CGO pd = true -> Proofs.C10_GOFile.go_inv st ->
+    go_generate_multi uc cfg st pd = Ok (text, st') -> good_C10_lex CGO text = true /\ Proofs.C10_GOFile.go_inv st'.
+Proof. exact Props.C10.C10_lex_multi_go. Qed.
+Print Assumptions Props.C10.C10_lex_multi_go.
+Goal forall (uc : unicode) (cfg : py_config) (st : py_state) (pd : parsed) (text : str) (st' : py_state),
+    unicode_ok uc -> Proofs.C10_PYFile.c10_py_cfg_ok cfg = true -> dom_C10 CPY pd = true -> Proofs.C10_PYFile.py_inv st ->
+    py_generate_multi uc cfg st pd = Ok (text, st') -> good_C10_lex CPY text = true /\ Proofs.C10_PYFile.py_inv st'.
+Proof. exact Props.C10.C10_lex_multi_python. Qed.
+Print Assumptions Props.C10.C10_lex_multi_python.
+Goal forall (uc : unicode) (cfg : ts_config) (plan : list out_plan) files fin,
+    unicode_ok uc -> Proofs.C10_TSFile.c10_ts_cfg_ok cfg = true -> Proofs.C10Multi.c10_plan_ok CTS plan = true ->
+    generate_crates (fun st (_ : str) im pd => ts_generate_multi uc cfg st im pd) [] plan = (files, fin) ->
+    forall f text, In (f, Model.Writer.Generated text) files -> good_C10_lex CTS text = true.
+Proof. exact Props.C10.C10_lex_multi_typescript_run. Qed.
+Print Assumptions Props.C10.C10_lex_multi_typescript_run.
+Goal forall (uc : unicode) (cfg : kt_config) (plan : list out_plan) files fin,
+    Proofs.C10_KT.c10_kt_cfg_ok cfg = true -> Proofs.C10Multi.c10_plan_ok CKT plan = true ->
+    generate_crates (fun (st : unit) c im pd => Proofs.C10Multi.wrap_unit st (kt_generate_multi uc cfg c im pd)) tt plan = (files, fin) ->
+    forall f text, In (f, Model.Writer.Generated text) files -> good_C10_lex CKT text = true.
+Proof. exact Props.C10.C10_lex_multi_kotlin_run. Qed.
+Print Assumptions Props.C10.C10_lex_multi_kotlin_run.
+Goal forall (uc : unicode) (cfg : sw_config) (plan : list out_plan) files fin,
+    Proofs.C10_SWFile.c10_sw_cfg_ok cfg = true -> Proofs.C10Multi.c10_plan_ok CSW plan = true ->
+    generate_crates (fun st (_ : str) (_ : scoped) pd => sw_generate_multi uc cfg st pd) false plan = (files, fin) ->
+    (forall f text, In (f, Model.Writer.Generated text) files -> good_C10_lex CSW text = true) /\
+    good_C10_lex CSW (sw_codable_contents cfg) = true.
+Proof. exact Props.C10.C10_lex_multi_swift_run. Qed.
+Print Assumptions Props.C10.C10_lex_multi_swift_run.
+Goal forall (uc : unicode) (cfg : go_config) (plan : list out_plan) files fin,
+    unicode_ok uc -> Proofs.C10_GOFile.c10_go_cfg_ok cfg = true -> Proofs.C10Multi.c10_plan_ok CGO plan = true ->
+    generate_crates (fun st (_ : str) (_ : scoped) pd => go_generate_multi uc cfg st pd) [] plan = (files, fin) ->
+    forall f text, In (f, Model.Writer.Generated text) files -> good_C10_lex CGO text = true.
+Proof. exact Props.C10.C10_lex_multi_go_run. Qed.
+Print Assumptions Props.C10.C10_lex_multi_go_run.
+Goal forall (uc : unicode) (cfg : py_config) (plan : list out_plan) files fin,
+    unicode_ok uc -> Proofs.C10_PYFile.c10_py_cfg_ok cfg = true -> Proofs.C10Multi.c10_plan_ok CPY plan = true ->
+    generate_crates (fun st (_ : str) (_ : scoped) pd => py_generate_multi uc cfg st pd) py_empty_state plan = (files, fin) ->
+    forall f text, In (f, Model.Writer.Generated text) files -> good_C10_lex CPY text = true.
+Proof. exact Props.C10.C10_lex_multi_python_run. Qed.
+Print Assumptions Props.C10.C10_lex_multi_python_run.
+Goal forall (uc : unicode) (cfg : sc_config) (plan : list out_plan) files fin,
+    Proofs.C10_SC.c10_sc_cfg_ok cfg = true -> Proofs.C10Multi.c10_plan_ok CSC plan = true ->
+    generate_crates (fun (st : unit) (_ : str) (_ : scoped) pd => Proofs.C10Multi.wrap_unit st (sc_generate uc cfg pd)) tt plan = (files, fin) ->
+    forall f text, In (f, Model.Writer.Generated text) files -> good_C10_lex CSC text = true.
+Proof. exact Props.C10.C10_lex_multi_scala. Qed.
+Print Assumptions Props.C10.C10_lex_multi_scala.
+Goal forall (hc_types : crate_types) (own : str) (imports_iter : list imported),
+    c10_crate_types_ok hc_types = true -> c10_imports_ok (used_imports hc_types own imports_iter) = true.
+Proof. exact Props.C10.C10_multi_imports_from_type_table. Qed.
+Print Assumptions Props.C10.C10_multi_imports_from_type_table.
+Goal forall (lg : lang) (l : c10_lang) (hc : crate_types -> crate_types) (cs : list (str * parsed)),
+    (forall m kv, In kv (hc m) -> In kv m) ->
+    forallb (fun c => dom_C10 l (snd c) && c10_crate_ok (fst c) && forallb c10_ident_ok (p_type_names (snd c))) cs = true ->
+    Proofs.C10Multi.c10_plan_ok l (multi_plan lg hc cs) = true.
+Proof. exact Props.C10.C10_multi_plan_in_domain. Qed.
+Print Assumptions Props.C10.C10_multi_plan_in_domain.
+Goal c10_imports_ok [(lit "al""pha", [lit "Item"])] = false /\
+  good_C10_lex CTS (ts_write_imports [(lit "al""pha", [lit "Item"])]) = false /\
+  c10_imports_ok [(lit "alpha", [lit "Item"])] = true /\
+  good_C10_lex CTS (ts_write_imports [(lit "alpha", [lit "Item"])]) = true.
+Proof. exact Props.C10.C10_multi_imports_hypothesis_needed. Qed.
+Print Assumptions Props.C10.C10_multi_imports_hypothesis_needed.
